@@ -38,10 +38,11 @@ const (
 	bNilReceiver   // marshal on a nil *P
 	bErrorEmptied  // unmarshal: error, and the receiver reset to an empty but non-nil value (slice and map kinds)
 	bEmptied       // unmarshal: no error, receiver set to an empty but non-nil value (slice and map kinds)
+	bPanicBadError // panics with an error value whose own Error method cannot be called (a typed nil pointer)
 	numBehaviours
 )
 
-var behNames = [...]string{"right", "wrong", "error", "error+data", "panic(string)", "panic(error)", "panic-after-set", "nothing", "nil-receiver", "error+emptied", "emptied"}
+var behNames = [...]string{"right", "wrong", "error", "error+data", "panic(string)", "panic(error)", "panic-after-set", "nothing", "nil-receiver", "error+emptied", "emptied", "panic(error whose Error() panics)"}
 
 // hook behaviours
 const (
@@ -49,10 +50,21 @@ const (
 	hPass
 	hError
 	hPanic
+	hPanicBadError // panics with a typed nil pointer error (its Error method dereferences the receiver)
 	numHooks
 )
 
-var hookNames = [...]string{"absent", "pass", "error", "panic"}
+// nHook is the number of hook behaviours the main enumeration crosses; the later ones have
+// blocks of their own.
+const nHook = 4
+
+var hookNames = [...]string{"absent", "pass", "error", "panic", "panic(error whose Error() panics)"}
+
+// badErr is an error type whose Error method needs a non-nil receiver; panic((*badErr)(nil))
+// is what a failing constructor that returns a typed nil leaves behind.
+type badErr struct{ msg string }
+
+func (e *badErr) Error() string { return e.msg }
 
 // predicate kinds
 const (
@@ -71,16 +83,16 @@ const (
 	pMatchUnmet
 	pMatchNear // matches only part of the text under full anchoring
 	pMatchInvalid
-	pExactLonger  // the text plus one byte
-	pExactEmpty   // Error("")
-	pPrefixLonger // the text plus one byte: longer than what it should prefix
-	pPrefixEmpty  // ErrorHasPrefix(""): met by every error
-	pSuffixLonger // one byte plus the text
-	pSuffixEmpty  // ErrorHasSuffix(""): met by every error
-	pCustomAccept // caller-written predicate: returns err != nil, never reports anything itself
-	pCustomReject // caller-written predicate: always returns false, never reports anything itself
+	pExactLonger     // the text plus one byte
+	pExactEmpty      // Error("")
+	pPrefixLonger    // the text plus one byte: longer than what it should prefix
+	pPrefixEmpty     // ErrorHasPrefix(""): met by every error
+	pSuffixLonger    // one byte plus the text
+	pSuffixEmpty     // ErrorHasSuffix(""): met by every error
+	pCustomAccept    // caller-written predicate: returns err != nil, never reports anything itself
+	pCustomReject    // caller-written predicate: always returns false, never reports anything itself
 	pCustomAcceptNil // caller-written predicate that also accepts "no error": always returns true
-	pMatchDotAll  // "^<beginning>.+$": met by a one-line text, unmet by a recovered panic (its text has newlines, '.' does not cross them)
+	pMatchDotAll     // "^<beginning>.+$": met by a one-line text, unmet by a recovered panic (its text has newlines, '.' does not cross them)
 	numPreds
 )
 
@@ -102,16 +114,17 @@ type caseSpec struct {
 	nilExpect  bool // unmarshal, slice and map kinds: the case lists a nil value (an empty non-nil result differs from it)
 	other      bool // interface-typed T: the value of this case is a *Q instead of a *P
 	emptyData  bool // marshal direction: the case expects no data at all ("" / nil); only a marshaler that returns (nil, nil) matches
+	nilData    bool // binary unmarshal helper: the case lists nil input data; the decoder must be handed nil, not an empty non-nil slice
 }
 
 // ways a wrong result differs
 const (
-	wTilde = iota // right + "~"
-	wNewline      // right + "\n"
-	wShort        // right without its last byte
-	wSpace        // " " + right
-	wUpper        // right with ASCII letters upper-cased
-	wJSONEquivalent // JSON marshal helper only: the same JSON value, other key order, spacing and number form
+	wTilde          = iota // right + "~"
+	wNewline               // right + "\n"
+	wShort                 // right without its last byte
+	wSpace                 // " " + right
+	wUpper                 // right with ASCII letters upper-cased
+	wJSONEquivalent        // JSON marshal helper only: the same JSON value, other key order, spacing and number form
 	numWrong
 )
 
@@ -164,6 +177,9 @@ func (c caseSpec) sig() string {
 	if c.emptyData {
 		nv += ",listed-data=empty"
 	}
+	if c.nilData {
+		nv += ",listed-input=nil"
+	}
 	return fmt.Sprintf("constraint=%d,beh=%s,before=%s,after=%s,pred=%s%s", c.constraint, behNames[c.beh], hookNames[c.before], hookNames[c.after], predNames[c.pred], nv)
 }
 
@@ -177,6 +193,9 @@ func (c caseSpec) errHead(i int) string {
 		return fmt.Sprintf("panic: boom %d%% %%s /a%%2Fb\n", i)
 	case bPanicError:
 		return fmt.Sprintf("panic: boom-err %d%% %%d\n", i)
+	case bPanicBadError:
+		// fmt prints a nil receiver whose Error method panics as <nil>
+		return "panic: <nil>\n"
 	case bNilReceiver:
 		// the text after "panic: " differs between a nil *P (runtime error: invalid memory
 		// address ...) and a nil *V (value method ... called using nil *V pointer)
@@ -186,7 +205,7 @@ func (c caseSpec) errHead(i int) string {
 }
 
 func (c caseSpec) isPanic() bool {
-	return c.beh == bPanicString || c.beh == bPanicError || c.beh == bPanicAfterSet || c.beh == bNilReceiver
+	return c.beh == bPanicString || c.beh == bPanicError || c.beh == bPanicAfterSet || c.beh == bNilReceiver || c.beh == bPanicBadError
 }
 
 // data is what the case lists as expected data / input data: "<index>|<payload>".
@@ -377,6 +396,8 @@ func doMarshal(caseNo int) ([]byte, error) {
 		panic(fmt.Sprintf("boom %d%% %%s /a%%2Fb", i))
 	case bPanicError:
 		panic(fmt.Errorf("boom-err %d%% %%d", i))
+	case bPanicBadError:
+		panic((*badErr)(nil))
 	case bNothing:
 		return nil, nil
 	}
@@ -397,7 +418,15 @@ func doUnmarshal(data []byte, set func(caseNo int, payload string)) error {
 			i = v
 		}
 	}
-	if l == nil || i < 0 || i >= len(l.specs) || string(data) != l.specs[i].data(i) {
+	if l != nil && len(data) == 0 && l.lastSeen >= 0 && l.lastSeen < len(l.specs) && l.specs[l.lastSeen].nilData {
+		// a case that lists nil input: its passing Before hook has just announced it, and
+		// the decoder must see exactly what the case lists — nil, not an empty non-nil slice
+		i = l.lastSeen
+		if data != nil {
+			l.events = append(l.events, event{"unscripted", i})
+			return errUnscripted
+		}
+	} else if l == nil || i < 0 || i >= len(l.specs) || string(data) != l.specs[i].data(i) || l.specs[i].nilData {
 		if l != nil {
 			l.events = append(l.events, event{"unscripted", i})
 		}
@@ -424,6 +453,8 @@ func doUnmarshal(data []byte, set func(caseNo int, payload string)) error {
 	case bPanicAfterSet:
 		set(i+1, s.payload)
 		panic(fmt.Sprintf("boom %d%% %%s /a%%2Fb", i))
+	case bPanicBadError:
+		panic((*badErr)(nil))
 	case bNothing:
 		return nil
 	case bErrorEmptied:
